@@ -166,6 +166,8 @@ func (in *Interp) reschedule(self *thread, op string, pos token.Pos) {
 
 func (in *Interp) rescheduleAt(self *thread, op string, pos token.Pos, suffix string) {
 	where := in.syncWhere(op, pos) + suffix
+	freeYield := in.freeYield // (only the sleeping thread's own scheduling decision is free)
+	in.freeYield = false
 	var enabled []*thread
 	for _, t := range in.threads {
 		if t.joiner {
@@ -207,7 +209,7 @@ func (in *Interp) rescheduleAt(self *thread, op string, pos token.Pos, suffix st
 		var alts []int64
 		if selfEnabled {
 			alts = append(alts, int64(self.id))
-			if in.preempts < in.maxPreempt {
+			if in.preempts < in.maxPreempt || freeYield {
 				for _, t := range enabled {
 					if t != self {
 						alts = append(alts, int64(t.id))
@@ -221,7 +223,7 @@ func (in *Interp) rescheduleAt(self *thread, op string, pos token.Pos, suffix st
 		}
 		id := in.decide("sched", func() []int64 { return alts })
 		next = in.threads[id]
-		if selfEnabled && next != self {
+		if selfEnabled && next != self && !freeYield {
 			in.preempts++
 		}
 	}
